@@ -338,12 +338,19 @@ func (k Keeper) ResetMetaDuration(ctx sdk.Context, meta *types.Metadata) {
 		}
 	}
 
-	newDuration := expiredHeight - meta.CreatedAt
+	// no completed shard is left (e.g. force-push over a single-commit model):
+	// the lifetime restarts from zero and is extended when the new shards complete
+	var newDuration uint64 = 0
+	if expiredHeight > meta.CreatedAt {
+		newDuration = expiredHeight - meta.CreatedAt
+	}
 
 	if meta.Duration != newDuration {
 		k.removeDataExpireBlock(ctx, meta.DataId, meta.CreatedAt+meta.Duration)
 		meta.Duration = newDuration
-		k.setDataExpireBlock(ctx, meta.DataId, expiredHeight)
+		if newDuration > 0 {
+			k.setDataExpireBlock(ctx, meta.DataId, expiredHeight)
+		}
 	}
 }
 
